@@ -8,3 +8,5 @@ import DSymVerif.Props.C09
 #print axioms DSymVerif.C09.relators_sorted
 #print axioms DSymVerif.C09.relators_are_traced_words
 #print axioms DSymVerif.C09.cones_are_traced_words
+#print axioms DSymVerif.C09.fg_total
+#print axioms DSymVerif.C09.generator_facet_pairs
